@@ -771,7 +771,7 @@ fn bin_run(bin: &str, args: &[String], timeout_ms: u64) -> String {
 pub fn run(o: &Opts) {
     let mut st = Stats::new();
     let mut sh = Shards::new(&o.out, o.shards, &crate::c05::header("Classify_C06"));
-    st.rule = "cases: every prefix (cut at every character) of generated valid ledgers; random strings over the ledger alphabet and arbitrary Unicode; generated ledgers with deleted/inserted/swapped/mutated lines; generated ledgers that book, whole and cut at every line; 100..100000 nested parentheses, minus signs and repeated lines; literals of 27..100000 digits; zero rates, zero amounts and self rates in every position; balance assertions in commodities of wide, zero-width and sequence-forming characters; include graphs with self-includes and cycles, on a FakeFileSystem (Loader::load, report::process) and as files of the real file system; price-DB files with malformed lines, zero rates, self rates, cut at every character. Each runs in a child process (5 s watchdog): parse_ledger, FormatOptions::format, report::process, balance and postings queries, and the commands format / balance / balance -X (up to date, --historical, with a date range) / register / accounts (/ --price-db) in-process on the real file; the corpus, the include graphs and the price-DB cases also through the built okane binary in fresh processes (exit status, signal, 5 s limit). non-trivial = the text is not accepted as a fully valid ledger or a command answered an error (an error path ran); distinct by input".to_string();
+    st.rule = "cases: every prefix (cut at every character) of generated valid ledgers; random strings over the ledger alphabet and arbitrary Unicode; generated ledgers with deleted/inserted/swapped/mutated lines; generated ledgers that book, whole and cut at every line; 100..100000 nested parentheses, minus signs and repeated lines; literals of 27..100000 digits; zero rates, zero amounts and self rates in every position; balance assertions in commodities of wide, zero-width and sequence-forming characters; include graphs with self-includes and cycles, on a FakeFileSystem (Loader::load, report::process) and as files of the real file system; price-DB files with malformed lines, zero rates, self rates, cut at every character; numerically adversarial valid ledgers (declared formats, half-unit and sub-precision residues beside other commodities, zero amounts with costs and lots, two- and three-commodity residuals); unicode-width measured directly on expression heads followed by a space and sequence-forming characters. Each runs in a child process (5 s watchdog): parse_ledger, FormatOptions::format, report::process, balance and postings queries, and the commands format / balance / balance -X (up to date, --historical, with a date range) / register / accounts (/ --price-db) in-process on the real file; the corpus, the include graphs and the price-DB cases also through the built okane binary in fresh processes (exit status, signal, 5 s limit). non-trivial = the text is not accepted as a fully valid ledger or a command answered an error (an error path ran); distinct by input".to_string();
     st.assumptions.push("report::process, the queries and the report commands are skipped for literals beyond 12 digits; report::process and the queries for nesting beyond 200 (the property exempts numbers outside the representable decimal range); `okane format` runs on all of them".to_string());
     st.assumptions.push("the clock is an input: every report command gets --now".to_string());
     let mut r = Rng::new(o.seed, 6);
@@ -967,6 +967,28 @@ pub fn run(o: &Opts) {
                              "commands_binary": ["format", "balance", format!("balance -X {} --now 2024-06-01", x), format!("balance -X {} --historical --now 2024-06-01", x), "register --now 2024-06-01", "accounts"],
                              "reproduce": "the built okane binary, one fresh process per command, on the text written to main.ledger"});
             sh.push(format!("CmdCase [] {}", outcome_list(&bin_obs)), vec![rep]);
+        }
+    }
+    // 6. the hypothesis of C06_format_total on the real oracle: unicode-width's width_cjk of
+    // HEAD ++ " " ++ TAIL (HEAD: digits and expression punctuation) against len(HEAD) + width_cjk(" " ++ TAIL)
+    {
+        use unicode_width::UnicodeWidthStr;
+        let heads = ["1", "-12,345.60", "(1 + 2) * 3", "((0.5", "-(1", "9", "1 / 3 - 2", "1 * 2", "0"];
+        let pool: Vec<char> = "\u{FE0F}\u{FE0E}\u{200D}\u{20E3}\u{1F642}\u{1F468}\u{1F1E6}\u{1F1E7}\u{17D2}\u{1780}\u{2D31}\u{2D7F}\u{644}\u{627}\u{A4F8}\u{A4FC}\u{0301}\u{200B}\u{0338}\u{7C73}\u{1F3FB}\u{E007F}\u{E0061}\u{00AD}\u{1160}\u{11A8}\u{5DC}\u{5D0}\u{1A10}\u{1A17}\u{1A15}\u{10C03}\u{10C32}\u{1F3F4}aZ$<=>#*19".chars().collect();
+        let n = if o.thorough { 20000 } else { 1500 };
+        for k in 0..n {
+            let head = heads[k % heads.len()];
+            let len = 1 + r.below(6) as usize;
+            let tail: String = (0..len).map(|_| *r.pick(&pool)).collect();
+            let spaced = format!(" {}", tail);
+            let whole = UnicodeWidthStr::width_cjk(format!("{}{}", head, spaced).as_str());
+            let wt = UnicodeWidthStr::width_cjk(spaced.as_str());
+            let alone = UnicodeWidthStr::width_cjk(head);
+            st.count("stream:width-oracle-direct");
+            st.eval(&("oracle", head, &tail), whole != head.len() + 1 + tail.chars().count());
+            let rep = json!({"property": "C06", "stream": "width-oracle-direct", "head": head, "tail": tail, "width_cjk_whole": whole, "width_cjk_space_tail": wt, "width_cjk_head": alone,
+                             "reproduce": "unicode_width::UnicodeWidthStr::width_cjk(head + \" \" + tail)"});
+            sh.push(format!("OracleCase {} {} {} {}", head.len(), alone, whole, wt), vec![rep]);
         }
     }
     drop(scratch);
